@@ -27,18 +27,34 @@ DIRS = ["", "pkg", "pkg/sub", "pkg/sub/deep", "app", "tests", "tests/unit", "tes
 NAMES = ["a.py", "b.py", "ab.py", "conftest.py", "mod.py", "x1.py", "x2.py", "notes.txt", "data.json", "A.py", "a.pyi", ".coveragerc.py"]
 
 
-def ref_selected(rel, includes, excludes, mode):
-    """15-line executable model of the statement (fnmatch globbing over the relative path)."""
-    inc = [p.split(":")[0] for p in includes] if includes else DEFAULT_INCLUDED
+def _split(pat):
+    """'glob[:line]' -> (glob, line or None)"""
+    g, _, l = pat.partition(":")
+    return g, (int(l) if l.isdigit() else None)
+
+
+def ref_selected(rel, includes, excludes, mode, trigger_lines=()):
+    """executable model of the statement (fnmatch globbing over the relative path). True / False, or None = either outcome
+    is acceptable: the statement fixes what a ':line' suffix must NOT do (exclude a whole file) and that a file matching an
+    include pattern is selected; whether the line part also narrows the selection inside the file is left open, so a file
+    selected only through ':L' includes none of which names a trigger line, or carrying a ':L' exclude that names one, may or may not change."""
+    inc = [_split(p) for p in includes] if includes else [(p, None) for p in DEFAULT_INCLUDED]
     if mode == "ff":
         exc = [p for p in excludes if ":" not in p] if excludes else DEFAULT_EXCLUDED
     else:
         exc = [p for p in excludes if ":" not in p]
-    if not any(fnmatch.fnmatchcase(rel, p) for p in inc):
+    hits = [l for g, l in inc if fnmatch.fnmatchcase(rel, g)]
+    if not hits:
         return False
     if any(fnmatch.fnmatchcase(rel, p) for p in exc):
         return False
-    return rel.endswith(".py")  # the codemods used here are Python codemods
+    if not rel.endswith(".py"):  # the codemods used here are Python codemods
+        return False
+    if None not in hits and not any(l in trigger_lines for l in hits):
+        return None
+    if any(fnmatch.fnmatchcase(rel, g) and l in trigger_lines for g, l in map(_split, excludes or []) if l is not None):
+        return None
+    return True
 
 
 def gen_patterns(rng, paths, k):
@@ -50,7 +66,8 @@ def gen_patterns(rng, paths, k):
         if r < 0.15:
             pat = p
         elif r < 0.3:
-            pat = p + ":" + str(rng.randint(1, 4))
+            # '@k' = resolved after calibration: the k-th trigger line (include) / a line that is no trigger (exclude)
+            pat = p + ":" + (f"@{rng.randrange(3)}" if rng.random() < 0.6 else str(rng.choice([1, 2, 3, 4, 10, 12, 17, 140])))
         elif r < 0.45:
             pat = (parts[0] + "/**") if len(parts) > 1 else "*.py"
         elif r < 0.55:
@@ -105,7 +122,7 @@ class C05(Check):
             if name.endswith(".py") and rng.random() < 0.8:
                 cid = rng.choice(cids)
                 r = G.pick_snippet(rng, cid)
-                files.append({"path": p, "snippets": [r["idx"]], "layout": {}, "trigger_of": cid})
+                files.append({"path": p, "snippets": [r["idx"]], "layout": {"offset": rng.choice([0, 0, 0, 8, 15, 120])}, "trigger_of": cid})
             elif name.endswith(".py"):
                 files.append({"path": p, "raw": {"t": rng.choice(G.NEUTRAL)}})
             else:
@@ -177,7 +194,6 @@ class C05(Check):
         spec = {"files": [{k: v for k, v in f.items() if k != "trigger_of"} for f in exp["files"]],
                 "symlinks": exp["symlinks"], "outside": exp["outside"]}
         world, meta = W.build_world(spec)
-        argv, results = self._argv(exp, meta, exp["path_include"], exp["path_exclude"])
         # calibration world: every distinct python content at a neutral root-level path (findings retargeted)
         cal_files = []
         cal_map = {}
@@ -190,13 +206,36 @@ class C05(Check):
         cworld, cmeta = W.build_world({"files": cal_files})
         cargv, cresults = self._argv(exp, cmeta, [], [])
         base = {"hashseed": 0, "sched": exp["sched"], "enum_seed": exp.get("enum_seed")}
-        run, cal = ctx.run_many([dict(base, name="run", world=dict(world, results=results), argv=argv),
-                                 dict(base, name="calibrate", world=dict(cworld, results=cresults), argv=cargv)])
-        trig = {}
+        cal = ctx.run(dict(base, name="calibrate", world=dict(cworld, results=cresults), argv=cargv))
+        cal_lines = {}
+        for r in (cal["report"] or {}).get("results", []):
+            for cs in r.get("changeset", []):
+                cal_lines.setdefault(cs.get("path"), set()).update(c.get("lineNumber") for c in cs.get("changes", []))
+        trig, lines = {}, {}
         for f in exp["files"]:
             if f["path"].endswith(".py") and "snippets" in f:
-                trig[f["path"]] = cal_map[json.dumps([f["snippets"], f.get("layout")])] in cal["changed"]
-        return {"run": run, "cal": cal, "trigger": trig}
+                cp = cal_map[json.dumps([f["snippets"], f.get("layout")])]
+                trig[f["path"]] = cp in cal["changed"]
+                lines[f["path"]] = sorted(x for x in cal_lines.get(cp, ()) if isinstance(x, int))
+
+        def resolve(pats, exclude):
+            out = []
+            for pat in pats:
+                g, _, l = pat.partition(":")
+                if l.startswith("@"):
+                    k, ls = int(l[1:]), lines.get(g, [])
+                    if exclude:
+                        l = str((max(ls) if ls else 0) + 1 + k)  # names no trigger line: must not keep the file from being fixed
+                    else:
+                        l = str(ls[k % len(ls)] if ls else 1 + k)
+                    pat = g + ":" + l
+                out.append(pat)
+            return out
+
+        inc, exc = resolve(exp["path_include"], False), resolve(exp["path_exclude"], True)
+        argv, results = self._argv(exp, meta, inc, exc)
+        run = ctx.run(dict(base, name="run", world=dict(world, results=results), argv=argv))
+        return {"run": run, "cal": cal, "trigger": trig, "lines": lines, "inc": inc, "exc": exc}
 
     def oracle(self, exp, outcomes):
         v = []
@@ -205,23 +244,26 @@ class C05(Check):
             return [{"clause": "run-failed", "key": f"C05:run-failed:{exp['mode']}",
                      "detail": {"status": run["status"], "exception": run["exception"], "tb": (run["traceback"] or "")[-500:],
                                 "include": exp["path_include"], "exclude": exp["path_exclude"], "symlinks": exp["symlinks"]}}]
-        expected = sorted(p for p, t in trig.items() if t and ref_selected(p, exp["path_include"], exp["path_exclude"], exp["mode"]))
+        inc, exc = outcomes["inc"], outcomes["exc"]
+        sel = {p: ref_selected(p, inc, exc, exp["mode"], outcomes["lines"].get(p, ())) for p, t in trig.items() if t}
+        expected = sorted(p for p, x in sel.items() if x is True)
+        optional = {p for p, x in sel.items() if x is None}
         outcomes["_expected"] = expected
         outcomes["_triggers"] = sorted(p for p, t in trig.items() if t)
         changed = sorted(p for p in run["changed"] if p.endswith(".py"))  # manifests are governed by the confinement clauses
         cs_paths = sorted({c.get("path") for r in (run["report"] or {}).get("results", []) for c in r.get("changeset", [])
                            if str(c.get("path")).endswith(".py")})
-        pat = {"include": exp["path_include"], "exclude": exp["path_exclude"], "mode": exp["mode"]}
-        if changed != expected:
-            extra = sorted(set(changed) - set(expected))
-            missing = sorted(set(expected) - set(changed))
+        pat = {"include": inc, "exclude": exc, "mode": exp["mode"]}
+        extra = sorted(set(changed) - set(expected) - optional)
+        missing = sorted(set(expected) - set(changed))
+        if extra or missing:
             what = "extra" if extra and not missing else ("missing" if missing and not extra else "both")
             sym = any(x in exp["symlinks"] or any(x.startswith(s + "/") for s in exp["symlinks"]) for x in extra)
             v.append({"clause": "changed-set", "key": f"C05:changed-set:{what}{':via-symlink' if sym else ''}:{exp['mode']}",
-                      "detail": dict(pat, extra=extra[:6], missing=missing[:6], symlinks=exp["symlinks"])})
-        elif cs_paths != expected:
+                      "detail": dict(pat, extra=extra[:6], missing=missing[:6], symlinks=exp["symlinks"], trigger_lines={p: outcomes["lines"].get(p) for p in (extra + missing)[:6]})})
+        elif cs_paths != changed:
             v.append({"clause": "changeset-paths", "key": f"C05:changeset-paths:{exp['mode']}",
-                      "detail": dict(pat, changeset_paths=cs_paths[:8], expected=expected[:8])})
+                      "detail": dict(pat, changeset_paths=cs_paths[:8], changed=changed[:8])})
         if run["escapes"]:
             v.append({"clause": "confinement", "key": f"C05:write-outside-target:{run['escapes'][0][0]}",
                       "detail": dict(pat, escapes=run["escapes"][:5], symlinks=exp["symlinks"])})
@@ -258,7 +300,7 @@ class C05(Check):
 
     def sample(self, exp, outcomes):
         return {"mode": exp["mode"], "codemods": exp["include"], "files": [f["path"] for f in exp["files"]], "symlinks": exp["symlinks"],
-                "path_include": exp["path_include"], "path_exclude": exp["path_exclude"], "triggers": outcomes.get("_triggers"),
+                "path_include": outcomes.get("inc"), "path_exclude": outcomes.get("exc"), "triggers": outcomes.get("_triggers"),
                 "expected_changed": outcomes.get("_expected"), "changed": sorted(outcomes["run"]["changed"])}
 
 
